@@ -290,15 +290,7 @@ Lemma parse_infix_S : forall f lhs s,
   let op := tty (curT s) in
   if infix_plain op then
     pbind (parse_expression pf md f (prec_of op) (next s)) (fun r s1 =>
-    match op with
-    | TPeriod =>
-        match estr 64 r with
-        | None => PNeed
-        | Some [] => POk (EInfix op lhs r) s1
-        | Some name => POk (EInfix op lhs (EStr name)) s1
-        end
-    | _ => POk (EInfix op lhs r) s1
-    end)
+    POk (EInfix op lhs r) s1)
   else match op with
   | TAssign =>
       match lhs with
@@ -742,11 +734,11 @@ Qed.
 Lemma estr_ident : forall n, estr 64 (EIdent n) = Some n.
 Proof. reflexivity. Qed.
 
-Lemma inner_period : forall Lt l name tn fn dl hl, name <> [] ->
+Lemma inner_period : forall Lt l name tn fn dl hl,
   PrefOK Lt l tn fn dl hl ->
-  InnerOK (Lt ++ [tk TPeriod; mkTok TIdent name]) (EInfix TPeriod l (EStr name)) tn fn (N.max (1 + dl) 3) hl.
+  InnerOK (Lt ++ [tk TPeriod; mkTok TIdent name]) (EInfix TPeriod l (EIdent name)) tn fn (N.max (1 + dl) 3) hl.
 Proof.
-  intros Lt l name tn fn dl hl Hname HL.
+  intros Lt l name tn fn dl hl HL.
   split; [apply begins_app; apply HL|].
   intros rest f s Hcl Hpos Htn Hfn Hfit Hf.
   rewrite <- app_assoc in Hpos. cbn [app] in Hpos. len.
@@ -763,7 +755,6 @@ Proof.
   - autorewrite with st. rewrite HdB. eapply fits_sub; [exact Hfit|lia].
   - cbn [List.length]. lia.
   - rewrite parse_infix_S, HcB. cbn [tty tk infix_plain prec_of]. rewrite EC. cbn [pbind].
-    rewrite estr_ident. destruct name as [|c name]; [exfalso; apply Hname; reflexivity|]. cbn [pbind].
     rewrite (led_finish f _ sC rest _ HbC Hcl).
     eexists; split; [reflexivity|]. post_tac.
     rewrite HiC, HiB, Hfn. rewrite andb_true_r. reflexivity.
@@ -2215,7 +2206,7 @@ Proof.
   - apply internal_tokty_dec_bl in Eop. subst op.
     destruct r; try discriminate Hp.
     apply (inner_weaken _ _ _ _ (N.max (1 + dop l) 3) _ (hasfn l)).
-    + apply inner_period; [apply ident_ok_nonempty; exact Hp|exact HPl].
+    + apply inner_period. exact HPl.
     + cbn [din]. fold (dop l). lia.
     + cbn [hasfn]. rewrite orb_false_r. reflexivity.
   - assert (Hne : op <> TPeriod) by (intros E; subst op; discriminate Eop).
@@ -2541,7 +2532,7 @@ Definition demo : program :=
     SExpr (ESwitch (I "x") [(false, [num "1" 1; num "2" 2], [SExpr (I "a")]); (true, [], [SExpr (I "b")])]);
     SExpr (EAssign (L "r") (EInfix TContains (I "x") (ERegexp (L "ab") (L "i"))));
     SExpr (EAssign (L "t") (ETernary (EInfix TGt (I "x") (num "1" 1)) (EStr (L "a")) (EStr (L "b"))));
-    SExpr (EInfix TPeriod (I "o") (EStr (L "name")));
+    SExpr (EInfix TPeriod (I "o") (I "name"));
     SExpr (EFloat (L "3.5") 3.5%float);
     SReturn (I "x") ].
 
@@ -2625,15 +2616,19 @@ Example case_default :
        tk TRBrace; tk TSemicolon] = ParseOk [SExpr (ESwitch (I "x") [(true, [], [])])].
 Proof. vm_compute. reflexivity. Qed.
 
-(* `a.1` and `a."b"` also parse (the operand's text becomes the string); only names are printable *)
+(* `a.1` and `a."b"` also parse (the operand is kept as written; the compiler takes its printed form as
+   the member name); only names are printable *)
 Example period_other_operands :
-  run [id "a"; tk TPeriod; mkTok TInt (L "1"); tk TSemicolon] = ParseOk [SExpr (EInfix TPeriod (I "a") (EStr (L "1")))]
-  /\ printable [SExpr (EInfix TPeriod (I "a") (EStr (L "1")))] = false.
-Proof. vm_compute. split; reflexivity. Qed.
+  run [id "a"; tk TPeriod; mkTok TInt (L "1"); tk TSemicolon] = ParseOk [SExpr (EInfix TPeriod (I "a") (num "1" 1))]
+  /\ printable [SExpr (EInfix TPeriod (I "a") (num "1" 1))] = false
+  /\ run [id "a"; tk TPeriod; mkTok TString (L "b"); tk TSemicolon] = ParseOk [SExpr (EInfix TPeriod (I "a") (EStr (L "b")))]
+  /\ printable [SExpr (EInfix TPeriod (I "a") (EStr (L "b")))] = false.
+Proof. vm_compute. repeat split; reflexivity. Qed.
 
-(* the right operand of `.` always comes out as a string *)
+(* the right operand of `.` comes out as it was written: a name stays a name (before the repair of D39 the
+   parser replaced it by a string literal, and this example was stated with `EStr (L "name")`) *)
 Example period_makes_string :
-  run [id "o"; tk TPeriod; id "name"; tk TSemicolon] = ParseOk [SExpr (EInfix TPeriod (I "o") (EStr (L "name")))].
+  run [id "o"; tk TPeriod; id "name"; tk TSemicolon] = ParseOk [SExpr (EInfix TPeriod (I "o") (I "name"))].
 Proof. vm_compute. reflexivity. Qed.
 End Demo.
 
@@ -2838,10 +2833,10 @@ Qed.
 Lemma stop_14 : forall rest, stop 14 rest.
 Proof. intros rest. unfold stop. destruct (tty (hd eof_tok rest)); reflexivity. Qed.
 
-Lemma xg_dot : forall Lt el ll hl name, XG Lt el ll hl -> 14 <= hl -> 13 <= ll -> name <> [] ->
-  forall hi, XG (Lt ++ [tk TPeriod; mkTok TIdent name]) (EInfix TPeriod el (EStr name)) 13 hi.
+Lemma xg_dot : forall Lt el ll hl name, XG Lt el ll hl -> 14 <= hl -> 13 <= ll ->
+  forall hi, XG (Lt ++ [tk TPeriod; mkTok TIdent name]) (EInfix TPeriod el (EIdent name)) 13 hi.
 Proof.
-  intros Lt el ll hl name HL Hhl Hll Hname hi p rest f s Hp _ Hpos Hf.
+  intros Lt el ll hl name HL Hhl Hll hi p rest f s Hp _ Hpos Hf.
   rewrite <- app_assoc in Hpos. cbn [app] in Hpos. len.
   destruct (xg_led Lt el ll hl (tk TPeriod) [mkTok TIdent name] p rest f s HL) as
     (kl & sB & f2 & Hkl & Hfk & HcB & HbB & [HtB HiB] & Hbody); try reflexivity.
@@ -2859,8 +2854,7 @@ Proof.
     + apply before_next. exact HbB.
     + cbn [List.length]. lia.
     + rewrite parse_infix_S, HcB in Hbody. cbn [tty tk infix_plain prec_of] in Hbody.
-      rewrite EC in Hbody. cbn [pbind] in Hbody. rewrite estr_ident in Hbody.
-      destruct name as [|c name]; [exfalso; apply Hname; reflexivity|]. cbn [pbind] in Hbody.
+      rewrite EC in Hbody. cbn [pbind] in Hbody.
       exists (S kl), sC. split; [len; lia|]. split; [exact HbC|].
       split; [split; autorewrite with st in *; congruence|].
       rewrite Hbody. f_equal. lia.
@@ -3006,7 +3000,7 @@ Proof.
   cbn [show_x x_expr xlo xhi].
   destruct (xp_left l 14 IHl Hl) as (HbL & ll & hl & HGL & Hhl & Hll); [lia|].
   split; [apply begins_app; exact HbL|].
-  apply (xg_dot _ _ ll hl n HGL Hhl); [lia|apply ident_ok_nonempty; exact Hn].
+  apply (xg_dot _ _ ll hl n HGL Hhl). lia.
 Qed.
 
 Lemma xelems : forall args, Forall XP args -> forallb xwf args = true ->
